@@ -6,6 +6,8 @@ CONSTANTS
   SignerSets <- Sets2
   MaxBurns = 2
   MaxMints = 1
+  MaxBlocks = 2
+  MaxOps = 3
   Merger = "overwrite"
   TicketStore = "all"
   BurnsFirst = TRUE
